@@ -22,9 +22,9 @@ OV = {"internal/clients/connectors/vcommon_test.go": ("common/vcommon_test.go", 
       "internal/clients/connectors/c02_test.go": "connectors/c02_test.go"}
 
 
-def session_cfg(cmds, kf, spec="Spec", invs="AllDelivered InOrder", props="EventuallyEnds", q=2):
-    s = ("SPECIFICATION %s\nCONSTANTS\n Cmds <- %s\n QCap = %d\n MCap = 2\n WCap = 2\n OutCap = 2\n KF_FlushGiveUp = %s\n" %
-         (spec, cmds, q, "TRUE" if kf else "FALSE"))
+def session_cfg(cmds, kf, spec="Spec", invs="AllDelivered InOrder", props="EventuallyEnds", q=2, kf_timeout=False):
+    s = ("SPECIFICATION %s\nCONSTANTS\n Cmds <- %s\n QCap = %d\n MCap = 2\n WCap = 2\n OutCap = 2\n KF_FlushGiveUp = %s\n KF_TimeoutFromFlush = %s\n" %
+         (spec, cmds, q, "TRUE" if kf else "FALSE", "TRUE" if kf_timeout else "FALSE"))
     if invs:
         s += "INVARIANTS %s\n" % invs
     if props:
@@ -82,7 +82,7 @@ def validate_trace(wd, case, res):
     name = "GST%d" % case["id"]
     vlib.write_ndjson(os.path.join(wd, name + ".ndjson"), trace_events(res.get("trace") or []))
     mod = "---- MODULE %s ----\nEXTENDS SessionTrace\nCmdsDef == %s\n====\n" % (name, cm)
-    cfg = ('SPECIFICATION TSpec\nCONSTANTS\n Cmds <- CmdsDef\n QCap = 100\n MCap = 10\n WCap = 1\n OutCap = 1\n KF_FlushGiveUp = FALSE\n'
+    cfg = ('SPECIFICATION TSpec\nCONSTANTS\n Cmds <- CmdsDef\n QCap = 100\n MCap = 10\n WCap = 1\n OutCap = 1\n KF_FlushGiveUp = FALSE\n KF_TimeoutFromFlush = FALSE\n'
            ' TraceFile = "%s.ndjson"\nINVARIANT Report\n' % name)
     t = vlib.tlc(wd, name, name + ".cfg", files={name + ".tla": mod, name + ".cfg": cfg}, workers=1, timeout=600, heap="768m",
                  java_opts=["-Dtlc2.tool.impl.Tool.cdot=true"])
@@ -111,6 +111,10 @@ def run(tier, replay):
             r = vlib.tlc(wd, "MC_Session", "G.cfg", files={"G.cfg": session_cfg("CmdsOne2", True, props="")}, timeout=600)
             if r.violated != "AllDelivered":
                 raise vlib.Inconclusive("KF_FlushGiveUp model does not violate AllDelivered")
+        # the repaired deviation still distinguishes: with the limit running from flush() the model loses the message in the blocked write
+        r = vlib.tlc(wd, "MC_Session", "G.cfg", files={"G.cfg": session_cfg("CmdsOne2", False, props="", kf_timeout=True)}, timeout=600)
+        if r.violated != "AllDelivered":
+            raise vlib.Inconclusive("KF_TimeoutFromFlush model does not violate AllDelivered")
         if kf_late:
             r = vlib.tlc(wd, "MC_Session", "G.cfg", files={"G.cfg": session_cfg("CmdsTwo", False, props="")}, timeout=600)
             if r.violated != "AllDelivered":
@@ -247,6 +251,9 @@ def run(tier, replay):
         states += tstates
         # end-to-end over the real SSH transport (real dserver processes, real client binary), free-running
         ssh_runs = e2e.stage_slow(wd, V, rng, tier)
+        win_runs = e2e.stage_window(wd, V, tier)
+        log("SSH, data beyond the SSH window with a consumer pausing 8 s inside the last message: %d run(s)" % win_runs)
+        ssh_runs += win_runs
         e2e.stage_tail_stall(wd, V, tier)        # serverless dcat binary, consumer stalling 6.5 s just before the end
         log("SSH stage: %d client runs against real dserver processes" % ssh_runs)
         cov = {"ssh_slow_consumer_runs": ssh_runs, "states": states, "transitions": trans, "traces_validated_against_impl": len(cases),
